@@ -188,7 +188,7 @@ func init() {
 	addMutant(mutant{Name: "silent/filer-open-tolerates-eof-with-full-header", Silent: true,
 		Edits: []edit{{"segment/filer.go", "	if _, err := rf.ReadAt(hdr[:], 0); err != nil {", "	n, err := rf.ReadAt(hdr[:], 0)\n	if errors.Is(err, io.EOF) && n == fileHeaderLen {\n		err = nil\n	}\n	if err != nil {"}}})
 	addMutant(mutant{Name: "wal/rotation-counted-only-by-goroutine", Fire: []string{"VF-25"},
-		Edits: []edit{{"wal.go", "	w.metrics.IncrementCounter(\"segment_rotations\", 1)\n	return w.mutateStateLocked(txn)", "	return w.mutateStateLocked(txn)"},
+		Edits: []edit{{"wal.go", "		return nil, func() error {\n			w.metrics.IncrementCounter(\"segment_rotations\", 1)\n			return post()\n		}, nil\n	}\n	return w.mutateStateLocked(txn)", "		return nil, post, nil\n	}\n	return w.mutateStateLocked(txn)"},
 			{"wal.go", "			w.log.Error(\"rotate error\", \"err\", err)\n		}", "			w.log.Error(\"rotate error\", \"err\", err)\n		} else {\n			w.metrics.IncrementCounter(\"segment_rotations\", 1)\n		}"}}})
 }
 
